@@ -53,10 +53,32 @@ method that returns / yields ``self.P`` or ``self.B`` on some path.
       operation's own statements — what closing a per-call connection does — so it is reported as discharged.
       Planted fixture: fixtures/c21/tx_scope.py.
 
-Not decided: equality of results between the modes beyond "the same statements run on an open connection and no result
-is read from the connection's history"; writes to connection-lifetime configuration (``row_factory``, PRAGMAs);
-interleaving of another task between a write and a ``changes()`` / difference read (no ``await`` lies inside the provider
-blocks today); statements of an operation that *raised* before its commit (per-call mode discards them on close, the
+* R5  (quiescent at suspension) where a coroutine / generator method of either class gives up control (``yield`` / ``yield from`` /
+      ``await`` / ``async with`` / ``async for`` — the only places where *other* store operations can run in between), the
+      possibly-shared connection carries nothing of this call: (a) no row-producing statement started through it (``execute`` /
+      ``executemany`` on the connection or on a cursor of it, text not recognisably DML-without-RETURNING / DDL / transaction control)
+      is still un-exhausted, (b) no write of R4(a) is still uncommitted.  ``execute`` only starts a SELECT; it stays active on its
+      connection until the cursor is drained.  On the one persistent connection the running scan sees what the other operations
+      write through that same connection meanwhile (a consumer that appends one tick per tick read never reaches the end of
+      ``stream_ticks``), a pending write is visible to them and is committed / rolled back by them; a per-call connection reads
+      the snapshot its statement started on and keeps its transaction to itself — so the two modes give different results.
+      Decided on the CFG (normal edges): the statement handle is followed through locals, ``cursor.execute()`` (returns its cursor)
+      and lazy views (generator expression, ``iter`` / ``map`` / ``enumerate`` / ``zip`` / ``itertools``); it is finished by ``fetchall()``,
+      ``close()``, a draining call (``list`` / ``tuple`` / ``sorted`` / ``set`` / ``dict`` / ``sum`` / ``min`` / ``max``), an eager comprehension,
+      ``*``-unpacking, re-execution of the cursor, or a ``for`` loop over it that runs to exhaustion (its ``break`` exits leave it
+      open); ``fetchone`` / ``fetchmany`` do not finish it; a cursor that is never bound is finalised with its expression.  A
+      suspension is reported when it is reachable from the ``execute`` without passing a finishing site (for (b): without passing
+      ``commit()`` / ``rollback()`` on that connection or the end of a with-block that commits, per mode, by R4's forward
+      propagation) and neither the statement nor the suspension is dominated by an ownership fact.  Merely *holding* an idle
+      connection across a suspension (rows fetched inside the block and yielded inside it) is not reported: nothing differs between
+      the modes then.  Planted fixture: fixtures/c21/suspended_statement.py.
+
+Not decided: equality of results between the modes beyond "the same statements run on an open connection, no result
+is read from the connection's history and the connection is idle whenever other operations can run"; writes to
+connection-lifetime configuration (``row_factory``, PRAGMAs); a cursor that is returned / passed to another function with its
+statement still running (observed), and suspensions reached only through an exception edge;
+interleaving of another task between a write and a ``changes()`` / difference read (R5(b) demands the commit before any
+suspension, it does not order the read); statements of an operation that *raised* before its commit (per-call mode discards them on close, the
 shared connection keeps them in its open transaction until the next commit); writes made by functions outside the two
 classes that are given the connection (``_run_migrations(conn)``); statements whose text has no constant piece (observed);
 thread affinity of the shared connection.
@@ -69,7 +91,7 @@ import re
 from pathlib import Path
 
 from ..astx import _tv, atoms, call_name, calls, dotted, enclosing_stmt, expand, facts_at, kwarg, last
-from ..cfg import CFG
+from ..cfg import CFG, exprs_in_node
 from ..index import AnchorError, FuncNode, Module, Repo, _set_parents, parent, walk_shallow
 from ..selftest import Twin, multi
 
@@ -94,19 +116,32 @@ EXPLANATION = (
     "(b) rollback() / `with <sqlite3 connection>` on a value that may be the shared connection is a violation exactly when some write of (a) can be pending "
     "in single-connection mode (it then discards another operation's acknowledged write); otherwise it only discards the failing operation's own statements, "
     "as closing a per-call connection does. Planted fixture fixtures/c21/tx_scope.py. "
-    "NOT decided: result equality beyond running the same statements on an open connection without reading its history; writes to connection "
-    "configuration (row_factory, PRAGMA); task interleaving between a write and the read; statements of an operation that raised before its commit; writes by functions outside "
+    "R5 (quiescent at suspension): at every point where a coroutine / generator method of the two classes gives up control (yield, yield from, await, "
+    "async with, async for) no row-producing statement started through a possibly-shared connection is still un-exhausted and no write is still "
+    "uncommitted. The handle is followed through locals, cursor.execute() and lazy views (generator expression, iter/map/enumerate/zip/itertools); "
+    "fetchall(), close(), list()/tuple()/sorted()/…, an eager comprehension, re-execution and a for loop that runs to exhaustion finish it, fetchone() "
+    "does not; reachability on the CFG (normal edges), for writes per mode with R4's propagation up to commit()/rollback()/a committing with-block; "
+    "ownership facts exempt the per-call branch. On the persistent connection a running SELECT sees what other operations write through that connection "
+    "in between and a pending write is visible to / ended by them, a per-call connection reads its snapshot and keeps its transaction, so the modes "
+    "diverge. Holding an idle connection across a suspension is not reported. Planted fixture fixtures/c21/suspended_statement.py. "
+    "NOT decided: result equality beyond running the same statements on an open connection without reading its history and with the connection idle "
+    "whenever other operations can run; writes to connection configuration (row_factory, PRAGMA); cursors handed to other functions with a live statement; "
+    "suspensions reached only through exception edges; the order of a write and a changes() / difference read; statements of an operation that raised before its commit; writes by functions outside "
     "the two classes that are given the connection; thread affinity."
 )
 TRUSTED = ["CPython ast", "sqlite3: a closed connection raises ProgrammingError on every later use; `with conn:` does not close, it commits on success and rolls back on exception",
            "sqlite3 (legacy transaction control): INSERT/UPDATE/DELETE/REPLACE open a transaction that lasts until commit()/rollback(); close() discards it",
            "sqlite3: Connection.total_changes / in_transaction and SQL total_changes() / changes() / last_insert_rowid() are per-connection state "
-           "(zero / idle on a new connection); Cursor.rowcount / lastrowid belong to the statement the cursor executed"]
+           "(zero / idle on a new connection); Cursor.rowcount / lastrowid belong to the statement the cursor executed",
+           "sqlite3: execute() of a row-producing statement only starts it; it stays active on its connection until the cursor is drained, closed, "
+           "re-executed or finalised; a statement running on a connection sees rows written through that same connection, a WAL reader on another "
+           "connection reads the snapshot it started on; list()/tuple()/sorted()/set()/dict()/sum()/min()/max() consume their iterable completely"]
 LEVEL_TEXT = "static typestate/ownership rule (T11) with CFG reaching definitions and guard facts; no repo code executed"
-LEVEL_NOTE = ("A pass means no code path closes the shared connection, no operation reads the connection's accumulated history as its result, and every write "
-              "is committed on its connection before its operation returns in both modes; "
+LEVEL_NOTE = ("A pass means no code path closes the shared connection, no operation reads the connection's accumulated history as its result, every write "
+              "is committed on its connection before its operation returns in both modes, and no statement or write of an operation is open on the "
+              "connection while that operation is suspended; "
               "it does not prove equal results of the two modes.")
-TECHNIQUE = "data-flow binding of the shared connection, CFG reaching definitions of close() receivers, dominance facts for ownership guards, connection-lifetime reads (attribute and SQL text) with delta / dominance acceptance, per-mode forward propagation of truth values for commit-after-write, planted fixtures"
+TECHNIQUE = "data-flow binding of the shared connection, CFG reaching definitions of close() receivers, dominance facts for ownership guards, connection-lifetime reads (attribute and SQL text) with delta / dominance acceptance, per-mode forward propagation of truth values for commit-after-write, statement-handle aliasing with CFG reachability from execute() to suspension points avoiding the draining sites, planted fixtures"
 
 WS_MOD = "llama_agents.server._store.sqlite.sqlite_workflow_store"
 SS_MOD = "llama_agents.server._store.sqlite.sqlite_state_store"
@@ -117,6 +152,7 @@ LIFECYCLE = {"close", "aclose", "__del__", "__exit__", "__aexit__", "dispose", "
 FIXTURE = Path(__file__).resolve().parent.parent.parent / "fixtures" / "c21" / "borrowed_close.py"
 FIXTURE_R3 = FIXTURE.parent / "lifetime_reads.py"
 FIXTURE_R4 = FIXTURE.parent / "tx_scope.py"
+FIXTURE_R5 = FIXTURE.parent / "suspended_statement.py"
 
 
 def _self_attr(e: ast.AST | None) -> str | None:
@@ -892,6 +928,33 @@ class TxScope:
             cur, p = p, parent(p)
         return False
 
+    def _commit_scope(self, name: str, node: ast.AST, key: str, mode: str) -> ast.AST | None:
+        """The innermost with-statement around `node` whose normal exit commits `key` in `mode` (same acceptance as
+        _inside_conn_cm): a write inside it is pending only until the block ends."""
+        fn = self.own.methods[name]
+        cur, p = node, parent(node)
+        while p is not None and p is not fn:
+            if isinstance(p, (ast.With, ast.AsyncWith)) and any(cur is s for s in p.body):
+                for it in p.items:
+                    tgt = it.optional_vars.id if isinstance(it.optional_vars, ast.Name) else None
+                    v = _conn_value_cm(self.own, fn, it)
+                    if v is not None and (_conn_key(fn, v) == key or (tgt is not None and tgt == key)):
+                        return p
+                    sc = _self_call(it.context_expr) if isinstance(it.context_expr, ast.Call) else None
+                    if sc in self.own.providers and sc != name and _is_generator(self.own.methods[sc]) and tgt == key and self._provider_commits(sc, mode):
+                        return p
+            cur, p = p, parent(p)
+        return None
+
+    def _end_tx_nodes(self, name: str, key: str) -> list:
+        """CFG nodes of `commit()` / `rollback()` on the connection `key`: after either, nothing of this call is pending."""
+        fn, cfg = self.own.methods[name], self.cfgs[name]
+        out = []
+        for c in walk_shallow(fn):
+            if isinstance(c, ast.Call) and isinstance(c.func, ast.Attribute) and c.func.attr in ("commit", "rollback") and not c.args and _conn_key(fn, c.func.value) == key:
+                out += cfg.nodes_of(enclosing_stmt(c))
+        return out
+
     # ---- verdicts
     def _analyse(self) -> None:
         self.results = {}
@@ -969,6 +1032,322 @@ class TxScope:
                     continue  # only ever rolls back a connection this call opened
                 out.append({"fn": fn, "site": site, "how": how, "source": src, "recv": ast.unparse(recv)})
         return sorted(out, key=lambda d: d["site"].lineno)
+
+
+# ----------------------------------------------------------------------------------------------- R5 matcher
+
+# sqlite3 / Python knowledge (TRUSTED): execute() of a row-producing statement only *starts* it (rows are stepped on demand);
+# it stays active on its connection until the cursor is drained, closed, re-executed or finalised.
+#   lazy views : the result pulls from the cursor on demand -> still the same live statement
+_LAZY_VIEWS = {"iter", "map", "filter", "enumerate", "zip", "islice", "chain", "takewhile", "dropwhile", "starmap", "batched", "zip_longest", "closing"}
+#   drainers   : consume their iterable argument to the end before they return
+_DRAINERS = {"list", "tuple", "sorted", "set", "frozenset", "dict", "sum", "max", "min", "deque"}
+_ROW_VERBS = {"SELECT", "WITH", "PRAGMA", "EXPLAIN"}
+_DML_VERBS = {"INSERT", "REPLACE", "UPDATE", "DELETE"}
+_NOROW_VERBS = {"CREATE", "DROP", "ALTER", "BEGIN", "COMMIT", "END", "ROLLBACK", "SAVEPOINT", "RELEASE", "VACUUM", "ANALYZE", "REINDEX", "ATTACH", "DETACH"}
+_NORMAL_ONLY = ("exc", "cancel")
+
+
+def _may_yield_rows(frags: list[str]) -> bool:
+    """False only when the recognisable pieces of the statement text say that the statement is complete when execute()
+    returns (DML without RETURNING, DDL, transaction control).  Text without a constant piece may be anything."""
+    verbs: set[str] = set()
+    returning = False
+    for f in frags:
+        t = _SQL_LITERAL.sub("''", f).strip().upper()
+        m = re.match(r"[A-Z]+", t)
+        if m and m.group(0) in _ROW_VERBS | _DML_VERBS | _NOROW_VERBS:
+            verbs.add(m.group(0))
+        returning = returning or bool(re.search(r"\bRETURNING\b", t))
+    if not verbs or returning:
+        return True
+    return bool(verbs & _ROW_VERBS) and not (verbs & _DML_VERBS)
+
+
+def _sql_head(frags: list[str]) -> str:
+    """First words of the statement for messages: the piece that starts with an SQL verb, whatever the order the pieces were found in."""
+    for f in frags:
+        m = re.match(r"\s*([A-Za-z]+)", f)
+        if m and m.group(1).upper() in _ROW_VERBS | _DML_VERBS | _NOROW_VERBS:
+            return " ".join(f.split()[:3])
+    return " ".join(" ".join(frags).split()[:3])
+
+
+def _suspension_nodes(cfg: CFG) -> dict:
+    """CFG nodes at which a coroutine / generator gives up control (other operations of the store can run), with how."""
+    out: dict = {}
+    for n in cfg.nodes:
+        a = n.ast
+        if a is None or isinstance(a, FuncNode + (ast.ClassDef,)):
+            continue
+        if n.kind == "iter" and isinstance(a, ast.AsyncFor):
+            out[n] = "async for"
+            continue
+        if n.kind == "with" and isinstance(a, ast.AsyncWith):
+            out[n] = "async with"
+            continue
+        for x in exprs_in_node(n):
+            how = ("await" if isinstance(x, ast.Await) else "yield from" if isinstance(x, ast.YieldFrom) else "yield" if isinstance(x, ast.Yield)
+                   else "async comprehension" if isinstance(x, ast.comprehension) and x.is_async else None)
+            if how:
+                out[n] = how
+                break
+    return out
+
+
+def _can_suspend(fn: ast.AST) -> bool:
+    return isinstance(fn, ast.AsyncFunctionDef) or _is_generator(fn)
+
+
+def _lexically_inside(node: ast.AST | None, block: ast.AST) -> bool:
+    cur = node
+    while cur is not None:
+        p = parent(cur)
+        if p is block:
+            return any(cur is s for s in getattr(block, "body", []))
+        cur = p
+    return False
+
+
+class _Cursors:
+    """Which locals of one function may denote a statement handle (cursor, or a lazy view of one) of the possibly-shared
+    connection, grouped by aliasing (flow-insensitive union-find over the binding sites)."""
+
+    def __init__(self, own: Owner, fn: ast.AST, cfg: CFG, taint: dict[str, str]):
+        self.own, self.fn, self.cfg, self.taint = own, fn, cfg, taint
+        self.uf: dict[str, str] = {}
+        names = {n.id for n in walk_shallow(fn) if isinstance(n, ast.Name) and isinstance(n.ctx, ast.Store)}
+        sites = {nm: _binding_sites(fn, nm) for nm in sorted(names)}
+        for _round in range(6):
+            changed = False
+            for nm, bs in sites.items():
+                for st, v in bs:
+                    b = self.base(v, st)
+                    if b is None:
+                        continue
+                    if nm not in self.uf:
+                        self.uf[nm] = nm
+                        changed = True
+                    if b[0] == "name" and self.root(b[1]) != self.root(nm):
+                        self.uf[self.root(nm)] = self.root(b[1])
+                        changed = True
+            if not changed:
+                break
+
+    def root(self, name: str) -> str:
+        while self.uf.get(name, name) != name:
+            name = self.uf[name]
+        return name
+
+    def base(self, e: ast.AST | None, st: ast.AST, depth: int = 0) -> tuple[str, str] | None:
+        """('name', local) when ``e`` is (a lazy view of) the handle held by a local; ('fresh', why) when it is a cursor just made
+        from a value that may be the shared connection; None otherwise."""
+        if e is None or depth > 6:
+            return None
+        if isinstance(e, ast.Name):
+            return ("name", e.id) if e.id in self.uf else None
+        if isinstance(e, ast.NamedExpr):
+            return self.base(e.value, st, depth + 1)
+        if isinstance(e, ast.GeneratorExp):
+            return self.base(e.generators[0].iter, st, depth + 1)
+        if isinstance(e, ast.Call):
+            f = e.func
+            if isinstance(f, ast.Attribute) and f.attr in _CURSOR_MAKERS:
+                src = _conn_source(self.own, self.fn, f.value, self.cfg, st, self.taint)
+                if src:
+                    return ("fresh", src)
+                return self.base(f.value, st, depth + 1) if f.attr != "cursor" else None  # cursor.execute() returns the cursor itself
+            if last(call_name(e)) in _LAZY_VIEWS:
+                for a in e.args:
+                    r = self.base(a.value if isinstance(a, ast.Starred) else a, st, depth + 1)
+                    if r:
+                        return r
+        return None
+
+
+def _climb(e: ast.AST) -> ast.AST:
+    """The outermost expression that still denotes the same live statement handle as ``e`` (through lazy views, generator
+    expressions, ``(x := …)`` and ``cursor.execute(…)``, which returns its cursor)."""
+    cur = e
+    while True:
+        p = parent(cur)
+        if isinstance(p, ast.Call) and any(a is cur for a in p.args) and last(call_name(p)) in _LAZY_VIEWS:
+            cur = p
+            continue
+        if isinstance(p, ast.comprehension) and p.iter is cur:
+            g = parent(p)
+            if isinstance(g, ast.GeneratorExp) and g.generators[0] is p:
+                cur = g
+                continue
+        if isinstance(p, ast.NamedExpr) and p.value is cur:
+            cur = p
+            continue
+        if isinstance(p, ast.Attribute) and p.value is cur and p.attr in ("execute", "executemany"):
+            c = parent(p)
+            if isinstance(c, ast.Call) and c.func is p:
+                cur = c
+                continue
+        return cur
+
+
+def _consumption(top: ast.AST) -> tuple[str, ast.AST | None]:
+    """What the context does with a statement handle: 'drain' (exhausted / closed before the expression ends), 'for' (statement
+    loop over it), 'delegate' (`yield from`), 'bind' (kept in a local), 'escape' (handed to code the rule does not see),
+    'peek' / 'drop' / 'other' (neither finishes nor keeps it)."""
+    p = parent(top)
+    if isinstance(p, ast.Attribute) and p.value is top:
+        c = parent(p)
+        if isinstance(c, ast.Call) and c.func is p and p.attr in ("fetchall", "close"):
+            return "drain", c
+        return "peek", p
+    if isinstance(p, ast.Starred):
+        return "drain", p
+    if isinstance(p, ast.Call) and any(a is top for a in p.args):
+        return ("drain", p) if last(call_name(p)) in _DRAINERS else ("escape", p)
+    if isinstance(p, ast.keyword):
+        return "escape", p
+    if isinstance(p, ast.comprehension) and p.iter is top:
+        g = parent(p)
+        eager = isinstance(g, (ast.ListComp, ast.SetComp, ast.DictComp)) and g.generators[0] is p
+        suspends = any(isinstance(x, ast.Await) or (isinstance(x, ast.comprehension) and x.is_async) for x in ast.walk(g))
+        return ("drain", g) if eager and not suspends else ("other", g)
+    if isinstance(p, (ast.For, ast.AsyncFor)) and p.iter is top:
+        return "for", p
+    if isinstance(p, ast.YieldFrom):
+        return "delegate", p
+    if isinstance(p, (ast.Assign, ast.AnnAssign)) and p.value is top:
+        return "bind", p
+    if isinstance(p, ast.withitem) and p.context_expr is top:
+        return "bind", p
+    if isinstance(p, (ast.Return, ast.Yield)):
+        return "escape", p
+    if isinstance(p, ast.Expr):
+        return "drop", p
+    return "other", p
+
+
+def _bound_name(at: ast.AST | None) -> str | None:
+    if isinstance(at, ast.Assign) and len(at.targets) == 1 and isinstance(at.targets[0], ast.Name):
+        return at.targets[0].id
+    if isinstance(at, ast.AnnAssign) and isinstance(at.target, ast.Name):
+        return at.target.id
+    if isinstance(at, ast.withitem) and isinstance(at.optional_vars, ast.Name):
+        return at.optional_vars.id
+    return None
+
+
+def open_statement_sites(own: Owner) -> tuple[list[dict], list[ast.AST]]:
+    """Every row-producing statement that a coroutine / generator method starts through a value that may be the shared
+    connection, with the suspension points it can still be un-exhausted at; plus the handles that leave the method."""
+    out: list[dict] = []
+    escapes: list[ast.AST] = []
+    taints = _helper_taint(own)
+    for name, fn in own.methods.items():
+        if not _can_suspend(fn):
+            continue
+        cfg = CFG(fn)
+        susp = _suspension_nodes(cfg)
+        taint = taints.get(name, {})
+        cur = _Cursors(own, fn, cfg, taint)
+        groups: dict[str, dict] = {}
+        for c in walk_shallow(fn):
+            if not (isinstance(c, ast.Call) and isinstance(c.func, ast.Attribute) and c.func.attr in ("execute", "executemany")):
+                continue
+            st = enclosing_stmt(c)
+            if st is None:
+                continue
+            recv = c.func.value
+            src = _conn_source(own, fn, recv, cfg, st, taint)
+            b = ("fresh", src) if src else cur.base(recv, st)
+            if b is None:
+                continue
+            frags = _sql_fragments(own, fn, c.args[0] if c.args else kwarg(c, "sql"))
+            if not _may_yield_rows(frags):
+                continue
+            kind, at = _consumption(_climb(c))
+            rec = {"fn": fn, "site": c, "recv": recv, "hits": [], "nsusp": len(susp),
+                   "what": f"`{ast.unparse(c.func)[:40]}(…)`" + (f" ({_sql_head(frags)} …)" if frags else " (statement text without a constant piece)"),
+                   "source": b[1] if b[0] == "fresh" else (_cursor_source(own, fn, recv, cfg, st, taint) or f"cursor `{b[1]}`")}
+            out.append(rec)
+            if kind == "drain":
+                continue  # started and exhausted within one expression
+            gkey = cur.root(b[1]) if b[0] == "name" else (cur.root(_bound_name(at)) if kind == "bind" and _bound_name(at) in cur.uf else None)
+            if gkey is None and kind not in ("for", "delegate"):
+                if kind == "escape":
+                    escapes.append(c)
+                continue  # a temporary cursor: finalised (statement reset) when the expression ends
+            g = groups.setdefault(gkey or f"@{id(c)}", {"openers": [], "closers": set(), "loops": []})
+            g["openers"].append((rec, cfg.node_of_containing(c)))
+            if kind == "for" and at not in g["loops"]:
+                g["loops"].append(at)
+            if kind == "delegate":
+                rec["hits"].append((getattr(at, "lineno", c.lineno), "yield from"))
+        for n in walk_shallow(fn):
+            if isinstance(n, ast.Name) and isinstance(n.ctx, ast.Load) and n.id in cur.uf and cur.root(n.id) in groups:
+                g = groups[cur.root(n.id)]
+                kind, at = _consumption(_climb(n))
+                if kind == "drain":
+                    g["closers"] |= set(cfg.node_of_containing(n))
+                elif kind == "for" and at not in g["loops"]:
+                    g["loops"].append(at)
+                elif kind == "escape":
+                    escapes.append(n)
+        for g in groups.values():
+            opener_nodes = {x for _r, ns in g["openers"] for x in ns}
+            # the statement loop ends the statement only when it runs to exhaustion: block its `done` edge, follow its body and its breaks
+            done_edges = [(x, "done") for lp in g["loops"] for x in cfg.nodes_of(lp)]
+            for rec, ns in g["openers"]:
+                facts = set.intersection(*[facts_at(cfg, x) for x in ns]) if ns else set()
+                if _ownership_guard(own, facts, rec["recv"]):
+                    continue  # only ever a connection this call opened itself
+                region = cfg.reach(ns, blocked=g["closers"] | opener_nodes, blocked_edges=done_edges, labels_excluded=_NORMAL_ONLY, include_starts=False)
+                for x in sorted((x for x in region if x in susp), key=lambda x: x.line):
+                    if not _ownership_guard(own, facts_at(cfg, x), rec["recv"]) and (x.line, susp[x]) not in rec["hits"]:
+                        rec["hits"].append((x.line, susp[x]))
+    return out, escapes
+
+
+def pending_write_sites(tx: "TxScope") -> list[dict]:
+    """Every write (direct, or delegated to a helper that leaves the commit to its caller) of a coroutine / generator method,
+    with the suspension points at which it can still be uncommitted — per mode, by the same forward propagation as R4."""
+    out: list[dict] = []
+    for name, fn in tx.own.methods.items():
+        if not _can_suspend(fn):
+            continue
+        cfg = tx.cfgs[name]
+        susp = _suspension_nodes(cfg)
+        sites: dict[int, dict] = {}
+        for mode, massume in tx.modes.items():
+            events = tx._direct_writes(name) + tx._delegated_writes(name, mode)
+            if not events:
+                continue
+            s1 = _reach_states(cfg, cfg.entry, dict(massume))
+            s1[cfg.entry] = dict(massume)
+            for c, key, desc in events:
+                rec = sites.setdefault(id(c), {"fn": fn, "site": c, "key": key, "what": desc, "hits": [], "nsusp": len(susp)})
+                ends = tx._end_tx_nodes(name, key)
+                scope = tx._commit_scope(name, c, key, mode)
+                for n in cfg.nodes_of(enclosing_stmt(c)):
+                    if n not in s1:
+                        continue
+                    reached = _reach_states(cfg, n, s1[n], blocked=ends)
+                    for x in sorted((x for x in reached if x in susp and x is not n), key=lambda x: x.line):
+                        if scope is not None and not _lexically_inside(x.ast, scope):
+                            continue  # the block's exit has committed
+                        prev = next((h for h in rec["hits"] if h[:2] == (x.line, susp[x])), None)
+                        if prev is None:
+                            rec["hits"].append((x.line, susp[x], mode))
+                        elif mode not in prev[2]:
+                            rec["hits"][rec["hits"].index(prev)] = (x.line, susp[x], f"{prev[2]} and {mode}")
+        out += sites.values()
+    return out
+
+
+def _by_method(sites: list[dict]) -> list[tuple[ast.AST, list[dict]]]:
+    order: dict[int, tuple[ast.AST, list[dict]]] = {}
+    for d in sites:
+        order.setdefault(id(d["fn"]), (d["fn"], []))[1].append(d)
+    return list(order.values())
 
 
 # ----------------------------------------------------------------------------------------------- run
@@ -1088,6 +1467,56 @@ def run(chk) -> None:
             or frb != sorted(["failing_op", "save_with", "undo"]):
         raise AnchorError(f"C21.R4: fixture verdicts changed: pending {fbad}, committed {fgood}, roll-back sites {frb}")
 
+    # ---------------------------------------------------------------- R5
+    n_rows = n_wr = n_coexist = 0
+    for (tx, cname), own in zip(scopes, (w, s)):
+        reads, escapes = open_statement_sites(own)
+        writes = pending_write_sites(tx)
+        n_rows += len(reads)
+        n_wr += len(writes)
+        n_coexist += len({id(d["fn"]) for d in reads + writes if d["nsusp"]})
+        for fn, ds in _by_method(reads):
+            bad = [d for d in ds if d["hits"]]
+            d0 = (bad or ds)[0]
+            chk.ob("C21.R5", f"{cname}.{fn.name}: no row-producing statement started through a value that may be the shared connection is still un-exhausted where "
+                   f"the method gives up control ({len(ds)} statement(s), {d0['nsusp']} suspension point(s) examined)", not bad,
+                   m=own.m, node=d0["site"], fn=fn, instance="quiescent-at-suspension:statement",
+                   reason="; ".join(f"{d['what']} at line {d['site'].lineno} can still be active at " + ", ".join(f"the {how} at line {ln}" for ln, how in d["hits"]) for d in bad)
+                          + f". The statement runs on a value that may be the shared connection ({d0['source']}): with single_connection=True it keeps stepping on the one "
+                          f"persistent connection while other store operations use that connection, so it returns rows they write meanwhile (and stays active on the "
+                          f"connection if the generator is abandoned); a per-call connection reads the snapshot its statement started on, so the two modes return different rows. "
+                          f"Materialise the rows (fetchall() / list(...)) before the method yields or awaits, as every other reader of the store does",
+                   path=[f"statement at line {d['site'].lineno} -> {how} at line {ln}" for d in bad for ln, how in d["hits"]])
+        for fn, ds in _by_method(writes):
+            bad = [d for d in ds if d["hits"]]
+            d0 = (bad or ds)[0]
+            chk.ob("C21.R5", f"{cname}.{fn.name}: no write through a value that may be the shared connection is still uncommitted where the method gives up control "
+                   f"({len(ds)} write(s), {d0['nsusp']} suspension point(s) examined, both modes)", not bad,
+                   m=tx.own.m, node=d0["site"], fn=fn, instance="quiescent-at-suspension:write",
+                   reason="; ".join(f"{d['what']} at line {d['site'].lineno} can still be uncommitted at " + ", ".join(f"the {how} at line {ln} ({mode})" for ln, how, mode in d["hits"]) for d in bad)
+                          + ". While the method is suspended other store operations run: on the shared connection they see the pending write and their commit / rollback ends its "
+                          "transaction, with per-call connections they do not see it and their own writes wait for the lock ('database is locked'), so the two modes give "
+                          "different results. Commit on the connection the write used before the method yields or awaits",
+                   path=[f"write at line {d['site'].lineno} -> {how} at line {ln} ({mode})" for d in bad for ln, how, mode in d["hits"]])
+        for e in escapes:
+            chk.observe(f"C21.R5: the cursor of `{ast.unparse(e)[:60]}` at {own.m.rel}:{e.lineno} is returned / passed on; what its receiver does with the live statement is not decided.")
+    # 4 on today's tree: query, query_events, get_ticks, stream_ticks (get_legacy_ctx is a plain function: it cannot give up control)
+    chk.floor("C21.R5", "row-producing statements started through a possibly-shared connection in coroutine / generator methods of both classes", n_rows, 3)
+    # 4 on today's tree: update, delete, append_event, append_tick (the state store writes in plain helper functions only)
+    chk.floor("C21.R5", "writes through a possibly-shared connection in coroutine / generator methods of both classes", n_wr, 3)
+    # 2 on today's tree: stream_ticks (yields each page after its fetchall) and append_event (async with after the commit)
+    chk.floor("C21.R5", "coroutine / generator methods in which such a statement and a suspension point coexist", n_coexist, 1)
+    so = _fixture_class(FIXTURE_R5, "StreamingStore", {"_shared_conn"})
+    freads, _esc = open_statement_sites(so)
+    fwrites = pending_write_sites(TxScope(so))
+    fbad = sorted({d["fn"].name for d in freads + fwrites if d["hits"]})
+    fgood = sorted({d["fn"].name for d in freads + fwrites} - set(fbad))
+    chk.floor("C21.R5", "planted statements open across a suspension reported in fixtures/c21/suspended_statement.py", len(fbad), 8)
+    chk.floor("C21.R5", "planted quiescent suspensions accepted in fixtures/c21/suspended_statement.py", len(fgood), 7)
+    if fbad != sorted(["stream_lazy", "stream_cursor_loop", "stream_fetchone", "stream_genexp", "stream_delegate", "read_await", "stream_break", "write_await"]) \
+            or fgood != sorted(["stream_pages", "stream_inside_scope", "stream_list", "stream_comprehension", "stream_drained", "stream_guarded", "write_then_notify"]):
+        raise AnchorError(f"C21.R5: fixture verdicts changed: reported {fbad}, accepted {fgood}")
+
     # ---------------------------------------------------------------- R2
     n_conn = 0
     for own, cname in ((w, WS), (s, SS)):
@@ -1147,7 +1576,48 @@ _SHARED_BRANCH = "            assert self._persistent_conn is not None\n        
 _SHARED_BRANCH_CM = "            assert self._persistent_conn is not None\n            with self._persistent_conn as conn:\n                yield conn\n"
 _TICK_COMMIT = "                    json.dumps(tick_data),\n                ),\n            )\n            conn.commit()\n"
 
+_TICK_ROW = ("tick = StoredTick(\n{i}    run_id=row[0],\n{i}    sequence=row[1],\n{i}    timestamp=datetime.fromisoformat(row[2]),\n"
+             "{i}    tick_data=json.loads(row[3]),\n{i})\n{i}yield tick\n{i}seq_cursor = tick.sequence\n")
+_PAGE = ("            with self._connect() as conn:\n                cursor = conn.cursor()\n                cursor.execute(sql, params)\n                rows = cursor.fetchall()\n"
+         "            for row in rows:\n                " + _TICK_ROW.format(i=" " * 16) + "            if len(rows) < _TICK_PAGE_SIZE:\n                return\n")
+_PAGE_READ = "                cursor = conn.cursor()\n                cursor.execute(sql, params)\n                rows = cursor.fetchall()\n            for row in rows:\n"
+_GET_TICKS_FETCH = "                (run_id,),\n            )\n            rows = cursor.fetchall()\n        return [\n            StoredTick("
+_EVENT_COMMIT = "                    event.model_dump_json(),\n                ),\n            )\n            conn.commit()\n"
+
 TWINS = [
+    # ---- R5 breaking: a statement / a write is still open where the method gives up control
+    Twin("seed form: stream_ticks iterates conn.execute() lazily and yields inside the connection block", _PW, _PAGE,
+         "            fetched = 0\n            with self._connect() as conn:\n                for row in conn.execute(sql, params):\n                    fetched += 1\n                    "
+         + _TICK_ROW.format(i=" " * 20) + "            if fetched < _TICK_PAGE_SIZE:\n                return\n", "C21.R5"),
+    Twin("stream_ticks pulls the page row by row with fetchone() and yields in between", _PW, _PAGE,
+         "            fetched = 0\n            with self._connect() as conn:\n                cursor = conn.cursor()\n                cursor.execute(sql, params)\n"
+         "                row = cursor.fetchone()\n                while row is not None:\n                    fetched += 1\n                    " + _TICK_ROW.format(i=" " * 20)
+         + "                    row = cursor.fetchone()\n            if fetched < _TICK_PAGE_SIZE:\n                return\n", "C21.R5"),
+    Twin("stream_ticks keeps a lazy view of the cursor and consumes it after the block", _PW, _PAGE,
+         "            fetched = 0\n            with self._connect() as conn:\n                cursor = conn.cursor()\n                cursor.execute(sql, params)\n"
+         "                rows = enumerate(cursor, 1)\n                for fetched, row in rows:\n                    " + _TICK_ROW.format(i=" " * 20)
+         + "            if fetched < _TICK_PAGE_SIZE:\n                return\n", "C21.R5"),
+    Twin("get_ticks awaits between execute() and fetchall()", _PW, _GET_TICKS_FETCH,
+         "                (run_id,),\n            )\n            await asyncio.sleep(0)\n            rows = cursor.fetchall()\n        return [\n            StoredTick(", "C21.R5"),
+    Twin("append_tick awaits between its INSERT and the commit", _PW, _TICK_COMMIT,
+         "                    json.dumps(tick_data),\n                ),\n            )\n            await asyncio.sleep(0)\n            conn.commit()\n", "C21.R5"),
+    Twin("append_event notifies the subscribers before it commits", _PW, _EVENT_COMMIT,
+         "                    event.model_dump_json(),\n                ),\n            )\n            pending = self._conditions.get(run_id)\n            if pending is not None:\n"
+         "                async with pending:\n                    pending.notify_all()\n            conn.commit()\n", "C21.R5"),
+    # ---- R5 benign: the connection is idle at every suspension
+    Twin("benign: stream_ticks yields inside the connection block, after fetchall()", _PW, _PAGE,
+         "            with self._connect() as conn:\n                cursor = conn.cursor()\n                cursor.execute(sql, params)\n                rows = cursor.fetchall()\n"
+         "                for row in rows:\n                    " + _TICK_ROW.format(i=" " * 20) + "            if len(rows) < _TICK_PAGE_SIZE:\n                return\n", None),
+    Twin("benign: stream_ticks materialises the page with list(conn.execute())", _PW, _PAGE_READ,
+         "                rows = list(conn.execute(sql, params))\n            for row in rows:\n", None),
+    Twin("benign: stream_ticks drains execute()'s cursor in one expression", _PW, _PAGE_READ,
+         "                rows = conn.cursor().execute(sql, params).fetchall()\n            for row in rows:\n", None),
+    Twin("benign: stream_ticks collects the page in a row loop that runs to exhaustion without suspending", _PW, _PAGE_READ,
+         "                rows = []\n                for fetched_row in conn.execute(sql, params):\n                    rows.append(fetched_row)\n            for row in rows:\n", None),
+    Twin("benign: append_event awaits inside the block, after the commit", _PW, _EVENT_COMMIT,
+         "                    event.model_dump_json(),\n                ),\n            )\n            conn.commit()\n            await asyncio.sleep(0)\n", None),
+    Twin("benign: get_ticks awaits before the statement starts", _PW, "    async def get_ticks(self, run_id: str) -> list[StoredTick]:\n        with self._connect() as conn:\n            cursor = conn.cursor()\n",
+         "    async def get_ticks(self, run_id: str) -> list[StoredTick]:\n        with self._connect() as conn:\n            cursor = conn.cursor()\n            await asyncio.sleep(0)\n", None),
     # ---- R1 breaking
     Twin("state store grows a close() that closes the provider's result", _PS, "    @property\n    def run_id(self) -> str:\n        return self._run_id\n",
          "    @property\n    def run_id(self) -> str:\n        return self._run_id\n\n    def close(self) -> None:\n        self._connect().close()\n", "C21.R1"),
